@@ -67,13 +67,13 @@ theorem pairwise_mem {α} {R : α → α → Prop} (hsym : ∀ a b, R a b → R 
   | nil => simp at ha
   | cons x rest ih =>
     have hp := List.pairwise_cons.mp h
-    rcases List.mem_cons.mp ha with rfl | ha
-    · rcases List.mem_cons.mp hb with rfl | hb
-      · exact Or.inl rfl
-      · exact Or.inr (hp.1 b hb)
-    · rcases List.mem_cons.mp hb with rfl | hb
-      · exact Or.inr (hsym _ _ (hp.1 a ha))
-      · exact ih hp.2 ha hb
+    rcases List.mem_cons.mp ha with hax | ha'
+    · rcases List.mem_cons.mp hb with hbx | hb'
+      · exact Or.inl (hax.trans hbx.symm)
+      · exact Or.inr (hax ▸ hp.1 b hb')
+    · rcases List.mem_cons.mp hb with hbx | hb'
+      · exact Or.inr (hsym _ _ (hbx ▸ hp.1 a ha'))
+      · exact ih hp.2 ha' hb'
 
 /-! ### leaves are never objects -/
 
